@@ -7,6 +7,7 @@ import (
 	"os"
 	"os/exec"
 	"path/filepath"
+	"sync/atomic"
 	"syscall"
 	"time"
 
@@ -52,6 +53,18 @@ func parseFault(f Op, xo *xferOpts, mfs *memFS) {
 			mfs.walkHookAt = fp.at
 			mfs.walkHook = func() {
 				if cs != nil && *cs != nil {
+					(*cs)()
+				}
+			}
+		}
+	case "cancelO":
+		// ... or later: at the at-th Open of a source file, when the walk may long be over and requests are being served
+		if mfs != nil {
+			cs := xo.cancelSend
+			var n int32
+			at := int32(fp.at)
+			mfs.openGate = func(string) {
+				if atomic.AddInt32(&n, 1) == at && cs != nil && *cs != nil {
 					(*cs)()
 				}
 			}
